@@ -221,7 +221,10 @@ func makeMethodArshaler(fncs *arshaler, t reflect.Type) *arshaler {
 			prevDepth, prevLength := xe.Tokens.DepthLength()
 			xe.Flags.Set(jsonflags.WithinArshalCall | 1)
 			marshaler, _ := reflect.TypeAssert[MarshalerTo](va.Addr())
+			prevFloor := xe.Tokens.Floor
+			xe.Tokens.Floor = len(xe.Tokens.Stack) // the method may not close the enclosing object or array
 			err := marshaler.MarshalJSONTo(enc)
+			xe.Tokens.Floor = prevFloor
 			xe.Flags.Set(jsonflags.WithinArshalCall | 0)
 			currDepth, currLength := xe.Tokens.DepthLength()
 			if (prevDepth != currDepth || prevLength+1 != currLength) && err == nil {
@@ -320,7 +323,10 @@ func makeMethodArshaler(fncs *arshaler, t reflect.Type) *arshaler {
 			}
 			xd.Flags.Set(jsonflags.WithinArshalCall | 1)
 			unmarshaler, _ := reflect.TypeAssert[UnmarshalerFrom](va.Addr())
+			prevFloor := xd.Tokens.Floor
+			xd.Tokens.Floor = len(xd.Tokens.Stack) // the method may not close the enclosing object or array
 			err := unmarshaler.UnmarshalJSONFrom(dec)
+			xd.Tokens.Floor = prevFloor
 			xd.Flags.Set(jsonflags.WithinArshalCall | 0)
 			currDepth, currLength := xd.Tokens.DepthLength()
 			if (prevDepth != currDepth || prevLength+1 != currLength) && err == nil {
